@@ -101,6 +101,8 @@ def generate_interleave(rng):
         "b_group": g if rng.random() < (0.4 if progress else 0.8) else ("g2" if g == "g1" else "g1"),
         "b_same_instance": rng.random() < (0.6 if progress else 0.3),
         "gap_s": rng.choice([0, 0, 1]),
+        # B may start a second (or more) after A: then B is the more recent run although A finishes later
+        "b_delay_s": rng.choice([0, 0, 1, 5]),
         "earlier_run": rng.random() < 0.5,
         "steps": [],
     }
@@ -164,6 +166,8 @@ def reductions(sc):
             yield with_(sc, gap_s=0)
         if sc.get("a_progress", 0) > 1:
             yield with_(sc, a_progress=1)
+        if sc.get("b_delay_s", 0) > 1:
+            yield with_(sc, b_delay_s=1)
         return
     for cand in drop_each(sc["steps"], 1):
         yield with_(sc, steps=cand)
@@ -226,6 +230,9 @@ def _execute_interleave(sc):
                 if next(it, None) is None:
                     break
         cs_b = cs_a if sc["b_same_instance"] and sc["b_group"] != g else ops.new_csvpaths()
+        if sc.get("b_delay_s"):
+            seams.SimClock.advance(seconds=sc["b_delay_s"])
+            out.fault("clock_forward")
         ops.run_group(cs_b, sc["b_method"], sc["b_group"])  # B: a whole run in between
         out.runs += 1
         bdir = ops.results_of(cs_b, sc["b_group"])[0].run_dir
@@ -254,6 +261,24 @@ def _execute_interleave(sc):
             if p not in before and not p.startswith(adir + os.sep) and p != os.path.join("archive", "manifest.json"):
                 out.v("wrote_outside_run_dir", f"{where}: iterating A created {p} outside its run directory {adir}", reused=cs_b is cs_a)
                 break
+        # ':last' / ':first' after both are done: the runs are ordered by when they STARTED (their directory names)
+        if sc.get("a_progress", 0) > 0 and sc["b_group"] == g and sc.get("b_delay_s") and sc["b_method"] in ops.COLLECTING and os.path.isfile(os.path.join(bdir, "m", "data.csv")) and not sc.get("earlier_run"):
+            for which, want_dir in (("last", bdir), ("first", adir)):
+                want = os.path.join(want_dir, "m", "data.csv")
+                if not os.path.isfile(want):
+                    continue
+                ref = f"${g}.results.{os.path.basename(bdir)[:4]}:{which}.m"
+                try:
+                    with ops.quiet():
+                        got = ops.new_csvpaths().file_manager.get_named_file(ref)
+                except Exception as e:  # noqa: BLE001
+                    if not ops.in_repo(e):
+                        raise
+                    out.v(f"{which}_raises", f"{where}: {ref} raised {ops.exc_sig(e)}; expected {want}", interleaved=True)
+                    continue
+                out.probe(f":{which} resolved after interleaved runs")
+                if got != want:
+                    out.v(f"{which}_wrong", f"{where}: {ref} resolved to {got}, but the run that started {'last' if which == 'last' else 'first'} is {want_dir}", interleaved=True)
         out.sig = ["interleave", sc["a_method"], sc["b_method"], sc["b_group"] == g, cs_b is cs_a, sc["gap_s"], bool(sc.get("earlier_run")), sc.get("a_progress", 0), g]
         out.probe("a run performed on the same instance while a two-member generator run was part-way through", cs_b is cs_a and g == "g2" and sc.get("a_progress", 0) > 0)
         out.nontrivial = True
